@@ -22,6 +22,7 @@ import (
 	"go/parser"
 	"go/token"
 	"go/types"
+	"math"
 	"math/rand"
 	"os"
 	"path/filepath"
@@ -796,6 +797,7 @@ func (r *c17Run) preconvert(pat int, es []*fx) error {
 //	"load": DSL text through Engine.Load (parse, type-check, irconv, ir_loader)
 //	"dsl":  DSL text through irconv.ConvertFile (type-checked by the harness), then Engine.LoadFromIR
 //	"ir":   the tree as ir.File through Engine.LoadFromIR
+//	"helper": DSL text with the comparisons moved into local helper functions, through Engine.Load (c17_helper.go)
 func (r *c17Run) eval(e *fx, pat int, route string) (c17Outcome, error) {
 	var eng *ruleguard.Engine
 	var load, errText string
@@ -806,6 +808,32 @@ func (r *c17Run) eval(e *fx, pat int, route string) (c17Outcome, error) {
 			return c17Outcome{}, fmt.Errorf("not expressible in the DSL: %s", e.sexp(r, pat))
 		}
 		eng, load, errText = c17LoadDSL(c17RuleSrc(pat, src, e.usesCustom()))
+	case "helper":
+		src, ok := e.helperSrc(r, pat)
+		if !ok {
+			return c17Outcome{}, fmt.Errorf("not expressible in the DSL: %s", e.sexp(r, pat))
+		}
+		if !strings.Contains(src, ":= func(") {
+			r.c.Res.Dist("helper:no-helper-in-this-tree")
+		}
+		if len(src)%5 == 0 {
+			eng, load, errText = c17LoadDSL(src) // end to end through Engine.Load
+		} else {
+			// type-checked by the harness (one importer for the whole run), irconv.ConvertFile, Engine.LoadFromIR: the steps of
+			// Engine.Load without its per-call import resolution
+			l, err := c18Load(src)
+			if err != nil {
+				return c17Outcome{load: "err", errText: "typechecker error: " + err.Error()}, nil
+			}
+			f, out := l.convert()
+			switch {
+			case strings.HasPrefix(out, "panic"):
+				return c17Outcome{load: "panic:" + strings.TrimSuffix(strings.Fields(out)[1], ":"), errText: out}, nil
+			case out != "ok":
+				return c17Outcome{load: "err", errText: "irconv error: " + strings.TrimPrefix(out, "error: ")}, nil
+			}
+			eng, load, errText = c17LoadIR(f)
+		}
 	case "dsl":
 		src, ok := e.dsl(pat)
 		if !ok {
@@ -945,6 +973,8 @@ func (r *c17Run) nearConst(pat int, kind, v string) *fx {
 		e := &fx{Op: "String", V: s}
 		if len(s) >= 2 && r.rng.Intn(4) == 0 && !strings.ContainsAny(s, "\n\r\"\\`") {
 			e.Lit = strconv.Quote(s[:1]) + " + " + strconv.Quote(s[1:]) // folded by go/types in irconv
+		} else if r.rng.Intn(3) == 0 {
+			e.Lit = c17SpellStr(r.rng, s) // raw, escaped, parenthesised, concatenated
 		}
 		return e
 	}
@@ -987,6 +1017,8 @@ func (r *c17Run) nearConst(pat int, kind, v string) *fx {
 		e.Lit = fmt.Sprintf("(%d + %d)", v64-1, 1)
 	} else if v64 >= 0 && r.rng.Intn(8) == 0 {
 		e.Lit = fmt.Sprintf("0x%x", v64)
+	} else if v64 > math.MinInt64 && r.rng.Intn(3) == 0 {
+		e.Lit = c17SpellInt(r.rng, v64, false) // every literal syntax: legacy octal, 0o, 0x, 0b, separators, runes, constant expressions
 	}
 	return e
 }
@@ -1129,6 +1161,11 @@ func (cs *c17Case) input(r *c17Run) map[string]interface{} {
 	if s, ok := cs.e.dsl(cs.pat); ok {
 		in["where"] = s
 	}
+	if cs.route == "helper" {
+		if src, ok := cs.e.helperSrc(r, cs.pat); ok {
+			in["rules"] = src
+		}
+	}
 	if cs.out.errText != "" {
 		in["load"] = cs.out.errText
 	}
@@ -1147,14 +1184,18 @@ func runC17(c *Ctx) error {
 		return err
 	}
 	nDSL, nIR, nBad, nLaw, depth := 220, 500, 260, 120, 4
+	nHelper, nHelperLaw := 90, 40
 	if c.Thorough {
 		nDSL, nIR, nBad, nLaw, depth = 2500, 9000, 3000, 1500, 7
+		nHelper, nHelperLaw = 900, 400
 	}
 	res.Rule = fmt.Sprintf("generated Where() trees (depth <= %d) over %d opaque predicates and comparisons of Line/Type.Size/Value.Int()/Text with "+
 		"literals near the sites' own facts, loaded through Engine.Load (%d, DSL text) and Engine.LoadFromIR (%d well-formed + %d malformed) and "+
 		"run on %d+%d probe sites one declaration at a time and as a whole file; model op `c17 %s`, statement `spec17` on the implementation's verdicts, "+
-		"%d law instances on the implementation alone; a case is non-trivial when its verdict vector is not constant or it fails to load, distinct by tree",
-		depth, len(c17Atoms), nDSL, nIR, nBad, len(w.sites[0]), len(w.sites[1]), c17Variant, nLaw)
+		"%d law instances on the implementation alone; %d trees and %d x 6 comparisons with their comparisons moved into local helper functions (literal of every Go "+
+		"spelling in the body, as an argument, under a closure, behind a nested helper; judged by the model, spec17, the Go operator on the go/types facts and the inline "+
+		"spelling of the same comparison); a case is non-trivial when its verdict vector is not constant or it fails to load, distinct by tree",
+		depth, len(c17Atoms), nDSL, nIR, nBad, len(w.sites[0]), len(w.sites[1]), c17Variant, nLaw, nHelper, nHelperLaw)
 
 	var cases []*c17Case
 	add := func(e *fx, pat int, route, class string) {
@@ -1178,6 +1219,22 @@ func runC17(c *Ctx) error {
 	for i := 0; i < nIR; i++ {
 		pat := i % 2
 		add(r.genBool(pat, 1+r.rng.Intn(depth)), pat, "ir", "wellformed")
+	}
+	for i := 0; i < nHelper; i++ {
+		pat := i % 2
+		var e *fx
+		for {
+			if i%3 == 0 {
+				e = r.genCmp(pat)
+			} else {
+				e = r.genBool(pat, 1+r.rng.Intn(3))
+			}
+			if _, ok := e.dsl(pat); ok {
+				break
+			}
+		}
+		c17Respell(r.rng, e)
+		add(e, pat, "helper", "wellformed")
 	}
 	for i := 0; i < nBad; i++ {
 		pat := i % 2
@@ -1225,6 +1282,17 @@ func runC17(c *Ctx) error {
 			return err
 		}
 		cs.out = o
+		if cs.route == "helper" {
+			switch {
+			case o.load == "ok":
+				res.Dist("helper:loaded")
+			case o.load == "err" && strings.HasPrefix(o.errText, "irconv error"):
+				res.Dist("helper:rejected-by-irconv")
+				res.Dist("helper:rejected-by-irconv:" + c17ErrClass(o.errText))
+			default:
+				res.Dist("helper:" + o.load)
+			}
+		}
 		key := cs.e.sexp(r, cs.pat)
 		nontrivial := o.load != "ok" || strings.Trim(o.verdicts, o.verdicts[:1]) != ""
 		res.Count("model:"+cs.route, key, nontrivial)
@@ -1252,7 +1320,10 @@ func runC17(c *Ctx) error {
 	if err := r.checkSpec(cases); err != nil {
 		return err
 	}
-	return r.checkLaws(nLaw)
+	if err := r.checkLaws(nLaw); err != nil {
+		return err
+	}
+	return r.c17HelperLaws(nHelperLaw)
 }
 
 func c17DistShape(res *hx.Result, e *fx) {
@@ -1322,6 +1393,12 @@ func (r *c17Run) compareModel(cases []*c17Case) error {
 					// since the `fix:` commits of C06, Load validates the variables used as comparison operands against
 					// the pattern; that validation is the loader model of C06, not this model (which gets no pattern)
 					r.c.Res.Dist("model-load:rejected-unbound-operand-variable(C06)")
+					continue
+				}
+				if cs.route == "helper" && impl == "err" && strings.HasPrefix(cs.out.errText, "irconv error") && strings.HasPrefix(model, "ok") {
+					// a helper-using group may be rejected by the converter (C18: rejected, never different); what this
+					// model describes is the behaviour of the groups that load
+					r.c.Res.Dist("model-load:helper-group-rejected-by-irconv(C18)")
 					continue
 				}
 				if model != impl {
